@@ -76,6 +76,13 @@ def run(ctx):
                       "constant increments of usize counters; (g) divisor known non-zero; (h) audited table entry")
     ctx.rule("R05-2", "every natural loop in scope is driven by a finite iterator, or is listed with its progress "
                       "argument and no cycle path leaves every variable of its exit conditions unmodified")
+    ctx.rule("R05-3", "index spaces: a character count (counter of chars().enumerate(), chars().count()) is never used as "
+                      "a byte offset (indexing as_bytes(), slicing a str, String::insert/remove/truncate, the word "
+                      "start handed to the line editor) unless a running correction adds len_utf8()-1 for every "
+                      "character that is not a known ASCII constant - otherwise the offset lands inside a multi-byte "
+                      "character and the slice panics")
+    ctx.rule("R05-4", "self-referential variable values: text read from the environment inside expand_env is not fed "
+                      "back into the pass's own `$` scanner (same analysis as C10 R10-1)")
     for crate in ctx.crates:
         entry = ENTRY if crate.kind == "bin" else LIB_ENTRY
         present = [e for e in entry if e in crate.bodies]
@@ -88,6 +95,14 @@ def run(ctx):
         ctx.floor("R05-1", crate, "panic-capable sites inventoried", nsites, FLOOR_SITES if crate.kind == "bin" else 120)
         nloops = loop_rule(ctx, crate, scope)
         ctx.floor("R05-2", crate, "loops classified", nloops, FLOOR_LOOPS)
+        from .. import ispace, taint
+        ni = ispace.rule(ctx, crate, "R05-3", sorted(p for p, b in crate.bodies.items() if b.kind in ("fn", "closure")),
+                         panicking_only=True)
+        ctx.floor("R05-3", crate, "index-space obligations", ni, 2 if crate.kind == "bin" else 0)
+        from .c10 import rescan_rule
+        ee = crate.fn("shell::expand_env")
+        if ctx.require(ee is not None, "R05-4", "R05-4|anchor", "shell::expand_env not found"):
+            rescan_rule(ctx, crate, ee, taint.dollar_scanners(crate), rule="R05-4")
 
 
 # =============================================================================================
@@ -477,9 +492,6 @@ def discharge_assert(body, bb, t):
         return True, "pointer alignment / null check on a reference (debug instrumentation)", 0
     if kind == "bounds":
         ok, n = prove(body, bb, ops[1], ops[0], -1)
-        if not ok:
-            # len operand is PtrMetadata / a temp: compare against len() of the indexed value
-            pass
         return ok, ("index < len derivable" if ok else "cannot derive index < len"), n
     if kind in ("div_zero", "rem_zero"):
         # the assert carries the dividend; the divisor is the right operand of the Div / Rem that follows
